@@ -613,6 +613,27 @@ def stall_matrix(tier):
     return cases
 
 
+def truncation_sweep(tier):
+    """C02, enumerated over real sockets: one small response per framing, the server's stream cut (FIN, with and without close_notify) after EVERY
+    plaintext offset (quick: a fixed third of the offsets, five kinds; thorough: every offset, every kind that can carry the response)."""
+    cases = []
+    kinds = [k for k in KINDS if k not in REFUSALS] if tier == "thorough" else ["direct-h1", "direct-tls-h1", "direct-h2", "tunnel-https-proxy-h1", "socks-tls-h1"]
+    for kind in kinds:
+        h2 = is_h2(kind)
+        plans_ = [{"status": 200, "body_len": 40, "h2_frames": [16]}] if h2 else [
+            {"status": 200, "body_len": 40, "framing": "cl"}, {"status": 200, "body_len": 40, "framing": "chunked", "chunks": [16]},
+            {"status": 200, "body_len": 40, "framing": "close"}]
+        for plan in plans_:
+            for variant in VARIANTS:
+                for at in range(0, 260):
+                    if tier == "quick" and (at + VARIANTS.index(variant)) % 3:
+                        continue
+                    cases.append({"kind": kind, "variant": variant, "verify": "none", "plans": {"r0": dict(plan)}, "ragged_close": False,
+                                  "requests": [{"tok": "r0", "method": "GET", "body": None, "api": "request", "host": "a.test"}],
+                                  "fault": {"pipe": 0, "kind": "truncate", "at": at, "ragged": bool(at % 2)}})
+    return cases
+
+
 def layer_for(prop_id, budget):
     from ..prop import Layer
 
